@@ -118,7 +118,7 @@ class C02(Prop):
                 size = rng.choice([1, 10, 40, 80, 200, rng.randrange(1, 130), rng.randrange(1, 130), rng.randrange(1, 130)])
                 res = ['res', 'r' * size] if rng.random() < 0.7 else ['err', rng.choice([1, -32000]), 'e' * size]
                 if rng.random() < 0.12:
-                    res = ['bad', rng.choice(['set', 'hugeint', 'circular', 'deep'])]     # the handler's result cannot be JSON-encoded
+                    res = ['bad', rng.choice(['set', 'hugeint', 'circular', 'deep', 'excobj', 'excobj', 'excobj2'])]     # the handler's result cannot be JSON-encoded
                 ops.append(['send_result', idx, res])
                 meta.append({'kind': 'reply', 'id': rid, 'b': b, 'res': res})
             yield {'proto': pname, 'ops': ops, 'meta': meta}
